@@ -2,6 +2,7 @@ package analyzer
 
 import (
 	"fmt"
+	"sort"
 	"strings"
 
 	"github.com/juev/hledger-lsp/internal/ast"
@@ -148,7 +149,7 @@ func collectAccountsFromResolved(resolved *include.ResolvedJournal) *AccountInde
 		}
 	}
 
-	for _, journal := range resolved.Files {
+	for _, journal := range resolved.IncludedJournals() {
 		for _, name := range CollectAccounts(journal).All {
 			if !seen[name] {
 				seen[name] = true
@@ -173,7 +174,7 @@ func collectPayeesFromResolved(resolved *include.ResolvedJournal) []string {
 		}
 	}
 
-	for _, journal := range resolved.Files {
+	for _, journal := range resolved.IncludedJournals() {
 		for _, p := range CollectPayees(journal) {
 			if !seen[p] {
 				seen[p] = true
@@ -198,7 +199,7 @@ func collectCommoditiesFromResolved(resolved *include.ResolvedJournal) []string 
 		}
 	}
 
-	for _, journal := range resolved.Files {
+	for _, journal := range resolved.IncludedJournals() {
 		for _, c := range CollectCommodities(journal) {
 			if !seen[c] {
 				seen[c] = true
@@ -223,7 +224,7 @@ func collectTagsFromResolved(resolved *include.ResolvedJournal) []string {
 		}
 	}
 
-	for _, journal := range resolved.Files {
+	for _, journal := range resolved.IncludedJournals() {
 		for _, t := range CollectTags(journal) {
 			if !seen[t] {
 				seen[t] = true
@@ -257,7 +258,7 @@ func collectTagValuesFromResolved(resolved *include.ResolvedJournal) map[string]
 	}
 
 	mergeTagValues(resolved.Primary)
-	for _, journal := range resolved.Files {
+	for _, journal := range resolved.IncludedJournals() {
 		mergeTagValues(journal)
 	}
 
@@ -281,7 +282,7 @@ func collectDatesFromResolved(resolved *include.ResolvedJournal) []string {
 	}
 
 	mergeDates(resolved.Primary)
-	for _, journal := range resolved.Files {
+	for _, journal := range resolved.IncludedJournals() {
 		mergeDates(journal)
 	}
 
@@ -324,7 +325,7 @@ func collectAccountCountsFromResolved(resolved *include.ResolvedJournal) map[str
 		}
 	}
 	mergeCounts(resolved.Primary)
-	for _, journal := range resolved.Files {
+	for _, journal := range resolved.IncludedJournals() {
 		mergeCounts(journal)
 	}
 	return counts
@@ -341,7 +342,7 @@ func collectPayeeCountsFromResolved(resolved *include.ResolvedJournal) map[strin
 		}
 	}
 	mergeCounts(resolved.Primary)
-	for _, journal := range resolved.Files {
+	for _, journal := range resolved.IncludedJournals() {
 		mergeCounts(journal)
 	}
 	return counts
@@ -358,7 +359,7 @@ func collectCommodityCountsFromResolved(resolved *include.ResolvedJournal) map[s
 		}
 	}
 	mergeCounts(resolved.Primary)
-	for _, journal := range resolved.Files {
+	for _, journal := range resolved.IncludedJournals() {
 		mergeCounts(journal)
 	}
 	return counts
@@ -375,7 +376,7 @@ func collectTagCountsFromResolved(resolved *include.ResolvedJournal) map[string]
 		}
 	}
 	mergeCounts(resolved.Primary)
-	for _, journal := range resolved.Files {
+	for _, journal := range resolved.IncludedJournals() {
 		mergeCounts(journal)
 	}
 	return counts
@@ -388,7 +389,7 @@ func collectDeclaredAccountsFromResolved(resolved *include.ResolvedJournal) map[
 			declared[k] = true
 		}
 	}
-	for _, journal := range resolved.Files {
+	for _, journal := range resolved.IncludedJournals() {
 		for k := range collectDeclaredAccounts(journal) {
 			declared[k] = true
 		}
@@ -464,12 +465,18 @@ func (a *Analyzer) createBalanceDiagnostic(tx *ast.Transaction, br *BalanceResul
 		}
 	}
 
+	commodities := make([]string, 0, len(br.Differences))
+	for commodity := range br.Differences {
+		commodities = append(commodities, commodity)
+	}
+	sort.Strings(commodities)
+
 	var msg string
-	for commodity, diff := range br.Differences {
+	for _, commodity := range commodities {
 		if msg != "" {
 			msg += "; "
 		}
-		msg += fmt.Sprintf("%s off by %s", commodity, diff.String())
+		msg += fmt.Sprintf("%s off by %s", commodity, br.Differences[commodity].String())
 	}
 
 	return Diagnostic{
@@ -497,7 +504,7 @@ func collectDeclaredCommoditiesFromResolved(resolved *include.ResolvedJournal) m
 			declared[k] = true
 		}
 	}
-	for _, journal := range resolved.Files {
+	for _, journal := range resolved.IncludedJournals() {
 		for k := range collectDeclaredCommodities(journal) {
 			declared[k] = true
 		}
